@@ -140,7 +140,7 @@ pub fn probe_list(cols: usize, rows: usize) -> Vec<Vec<Cmd>> {
 impl LockStep {
     /// Is a mismatch after `cmd` (described by `what`) a violation of this
     /// check's property? Hidden components have fixed owners.
-    fn blame(&self, cmd: &Cmd, what: &str) -> bool {
+    pub fn blame(&self, cmd: &Cmd, what: &str) -> bool {
         let p = self.property;
         if what.starts_with("hidden state: pending-wrap flag") {
             return p == "C04" || p == "C02";
